@@ -829,8 +829,42 @@ def glossary_case(ctx, rng):
             return
 
 
+def switched_off_values_case(ctx, rng):
+    """a yes/no converter whose caller says which values mean yes and which mean no - one of the two lists given as
+    EMPTY ('there is no such value'): a cell holding one of the package's stock values of that kind is no flag at all
+    (the reading is refused), it does not quietly get the stock meaning back"""
+    ctx.evaluated()
+    stock_false = [None, '', False, 'False']
+    stock_true = ['v', 1, '1', True, 'True']
+    which = rng.choice(["no_false", "no_true"])
+    conv_obj = (X.CellBool(true_values=['yes'], false_values=[], none_values=['n/a']) if which == "no_false" else
+                X.CellBool(true_values=[], false_values=['no'], none_values=['n/a']))
+    v = rng.choice(stock_false if which == "no_false" else stock_true)
+    case = {"switched_off_values": which, "cell": repr(v)}
+    cell = Cell(None, 1, 1, v)
+    try:
+        got = conv_obj.val_from_cell(cell)
+        ctx.violation("attribute-differs-from-cell-at-reported-origin",
+                      {"attr": "flag", "value": repr(got), "cell": repr(v),
+                       "converter": "CellBool with an empty list of %s values" % ("false" if which == "no_false" else "true")}, case)
+    except ValueError:
+        ctx.count("cells_refused_by_a_converter_whose_value_list_is_empty")
+    except Exception as err:
+        ctx.violation("reader-raises", {"type": type(err).__name__, "msg": str(err)[:120]}, case)
+        return
+    # (the values the caller did name are read as before)
+    for val, want in ((('yes', True),) if which == "no_false" else (('no', False),)) + (('n/a', None),):
+        try:
+            if conv_obj.val_from_cell(Cell(None, 1, 1, val)) is not want:
+                ctx.violation("attribute-differs-from-cell-at-reported-origin", {"attr": "flag", "cell": repr(val)}, case)
+        except Exception as err:
+            ctx.violation("reader-raises", {"type": type(err).__name__, "msg": str(err)[:120]}, case)
+
+
 def run_shard(ctx):
     for i in range(ctx.cases):
+        if i % 8 == 3:
+            switched_off_values_case(ctx, ctx.rng(i, "off"))
         if i % 8 == 5:
             glossary_case(ctx, ctx.rng(i))
         if i % 16 == 9:
@@ -843,6 +877,10 @@ def run_shard(ctx):
 
 
 def replay(ctx, case):
+    if "switched_off_values" in case:
+        for k in range(100):
+            switched_off_values_case(ctx, random.Random(k))
+        return
     if "blank_sheet" in case:
         for k in range(100):
             blank_sheet_case(ctx, random.Random(k))
